@@ -6,6 +6,7 @@ WT=$1; P=$2; L=$3; shift 3
 IDS=${@:-C01 C02 C03 C04 C05 C06 C07 C08 C09 C10 C11 C12 C13 C14 C15 C16 C17 C18 C19 C20}
 EV=/tmp/ev/$L; rm -rf $EV; mkdir -p $EV; cp /verif/known_findings.txt $EV/
 # snapshot of the checker binary, so that the checker can be rebuilt while a batch is running
+[ -z "$AGHVERIF_BIN" ] && /verif/check list >/dev/null   # rebuilds the checker when its sources are newer
 BIN=${AGHVERIF_BIN:-/verif/bin/aghverif}; cp $BIN $EV/aghverif; BIN=$EV/aghverif
 export PATH=/opt/veriftools/go1.26.8/bin:$PATH GOFLAGS=-mod=mod GOPROXY=off GOTOOLCHAIN=local GOWORK=off CGO_ENABLED=0
 cd $WT || exit 2
